@@ -17,6 +17,7 @@ PHASE=${PHASE:-both}
 if [ "$PHASE" != apply ]; then
 cd "$WT" || exit 2
 git checkout -q -- . 2>/dev/null
+git checkout -q --detach "$(git -C /repo rev-parse HEAD)" 2>/dev/null   # follow fix commits made in /repo meanwhile
 mkdir -p tests; cp "$SEED/demo_$IDL.rs" tests/demo_$IDL.rs
 FEAT=""; grep -q verif_hooks "$SEED/demo_$IDL.rs" && FEAT="--features verif_hooks"
 # without the change: demo passes
